@@ -55,11 +55,6 @@ def judge_stub(res, text, tmod, m, records, k, cfgname, flag, wit):
         bad("stub-does-not-parse", se.syntax_error)
         return keys
     collided = se.collided_closure()
-    for kind, detail, loc in se.events:
-        if kind == "typeddict-class-name-collision":
-            res.count("stubs_with_typeddict_class_name_collision")  # matters for C01 only where a value is then rejected
-        elif kind != "function-duplicated":
-            bad(kind, f"{loc}: {detail}")
     stats = {}
     for rec in records:
         info = se.funcs.get(rec["qual"])
@@ -101,6 +96,16 @@ def judge_stub(res, text, tmod, m, records, k, cfgname, flag, wit):
         elif rec["returned"]:
             judge_member(res, bad, rec["result"], t, where, node, collided, stats)
     res.count("unverifiable_elements", stats.get("unverifiable_elements", 0))
+    # what the evaluator met while reading the stub AND while evaluating the annotations above (a name no import provides surfaces there)
+    seen_ev = set()
+    for kind, detail, loc in se.events:
+        if (kind, detail, loc) in seen_ev:
+            continue
+        seen_ev.add((kind, detail, loc))
+        if kind == "typeddict-class-name-collision":
+            res.count("stubs_with_typeddict_class_name_collision")  # matters for C01 only where a value is then rejected
+        elif kind != "function-duplicated":
+            bad(kind, f"{loc}: {detail}")
     return keys
 
 
@@ -303,6 +308,15 @@ PINNED.append(
 
 def _call(q, args, flavor="plain"):
     return {"qual": q, "access": q, "args": args, "kwargs": {}, "flavor": flavor, "kind": "module"}
+
+
+# a module in which the only union sits inside an Optional (imports are merged per module: one plain Union elsewhere would provide the name)
+PINNED.append(
+    {"name": "vfm01_optional_union_only", "seed": "optunion", "stratum": "main", "ks": [0, 3], "rewriters": ["NoOpRewriter", "DEFAULT"], "flags": ["default"],
+     "literal": {"source": "\ndef coerce(v, fallback=None):\n    return fallback if v is None else v\n\n\ndef lookup(table, default=None):\n    return default\n",
+                 "funcs": [["coerce", "plain"], ["lookup", "plain"]],
+                 "plan": [_call("coerce", ["1"]), _call("coerce", ["'s'"]), _call("coerce", ["None"]), _call("coerce", ["None", "2.5"]),
+                          _call("lookup", ["{'k': A()}", "A()"]), _call("lookup", ["{'k': A()}", "1"]), _call("lookup", ["{'k': A()}"])]}})
 
 
 # Deterministic shapes for the end-to-end part of C06 (run -> rows -> stub classes, every k, and stores written under a larger limit
